@@ -1,5 +1,31 @@
-from props import dagprop
+"""C01 — run_tasks returns exactly each requested task's own computed result.
+
+The scheduler part is `dagprop.run` (generated DAG cases, Lean run model, reference evaluator).  "That value never
+depends on ... which results happened to be cached beforehand" also quantifies over cache pre-states that an earlier
+run_tasks call left in a real storage: the history families of props/c06x.py (confusable tasks - ==-equal parameters of
+different types, same-named enum classes, same-qualname task classes of two modules - run one after the other over one
+storage; the __main__ script run twice; round trips through cached_tasks) are run alongside, and every violation they
+label with C01 (a run_tasks return value that is not the task's own value) is reported here."""
+import threading
+
+from props import c06x, dagprop
+
+FAMILIES = ('confusable', 'round-trip')
+NOTE = ('history families of props/c06x.py over a real storage (confusable-task sequences incl. same-named enum classes and '
+        'same-qualname task classes of two modules; round trips through cached_tasks): a returned value must be the '
+        "task's own value whatever an earlier call stored")
 
 
 def run(ctx):
-    return dagprop.run(ctx, 'C01')
+    if c06x.replay_kind(ctx) in c06x.KINDS:
+        return c06x.replay_result(c06x.run_for(ctx, 'C01', c06x.FAMILIES, 101))
+    if ctx.get('replay') or not ctx['driver_ok']:
+        return dagprop.run(ctx, 'C01')
+    box = {}
+    th = threading.Thread(target=c06x.run_for_thread, args=(ctx, 'C01', FAMILIES, 101, box))
+    th.start()
+    res = dagprop.run(ctx, 'C01')
+    th.join()
+    if 'x' not in box:
+        return dict(infra_error='the history families did not finish')
+    return c06x.merge_into(res, box['x'], NOTE)
